@@ -61,6 +61,20 @@ type Knob struct {
 	n     int
 }
 
+// HashFunc is a function that looks like a hash of at most 32 bits (name
+// contains "hash"/"sum"/"crc"/"fnv"/"digest", one result of type uint32/uint16/uint8,
+// at least one string or []byte parameter). A variant build can weaken it to
+// a few bits: code that is correct only as long as no two keys collide then
+// shows its dependence on the history after a handful of calls.
+type HashFunc struct {
+	ID   int    `json:"id"`
+	Name string `json:"name"`
+	File string `json:"file"`
+	Line int    `json:"line"`
+	Ret  string `json:"result_type"`
+	rets [][2]int
+}
+
 // Site describes one inserted yield.
 type Site struct {
 	ID   int    `json:"id"`
@@ -72,26 +86,27 @@ type Site struct {
 
 // Report is what the instrumenter found and did.
 type Report struct {
-	Sites          []Site   `json:"sites"`
-	Files          []string `json:"files"`
-	Packages       []string `json:"packages"`
-	RootPackage    string   `json:"root_package"`
-	ModulePath     string   `json:"module_path"`
-	Globals        []string `json:"globals"` // package-level vars of the root package
-	GlobalWrites   []string `json:"global_write_sites"`
-	MapRangeSites  []string `json:"map_range_sites"`  // iteration order left to Go (not seamed)
-	MapRangeSeamed []string `json:"map_range_seamed"` // iteration order decided by the scheduler
-	SwappedImports []string `json:"swapped_imports"`
-	TimeRedirects  int      `json:"time_redirects"`
-	GoStmts        int      `json:"go_stmts"`
-	ChanOps        int      `json:"channel_ops_rewritten"`
-	Unmodelled     []string `json:"unmodelled"`
-	Refusals       []string `json:"refusals"`
-	Knobs          []Knob   `json:"knobs"`
-	StrLits        []string `json:"-"` // distinct short string literals of the source (workload dictionary)
-	TypeCheck      string   `json:"typecheck"`
-	TreeDigest     string   `json:"tree_digest"`
-	SiteDigest     string   `json:"site_digest"`
+	Sites          []Site     `json:"sites"`
+	Files          []string   `json:"files"`
+	Packages       []string   `json:"packages"`
+	RootPackage    string     `json:"root_package"`
+	ModulePath     string     `json:"module_path"`
+	Globals        []string   `json:"globals"` // package-level vars of the root package
+	GlobalWrites   []string   `json:"global_write_sites"`
+	MapRangeSites  []string   `json:"map_range_sites"`  // iteration order left to Go (not seamed)
+	MapRangeSeamed []string   `json:"map_range_seamed"` // iteration order decided by the scheduler
+	SwappedImports []string   `json:"swapped_imports"`
+	TimeRedirects  int        `json:"time_redirects"`
+	GoStmts        int        `json:"go_stmts"`
+	ChanOps        int        `json:"channel_ops_rewritten"`
+	Unmodelled     []string   `json:"unmodelled"`
+	Refusals       []string   `json:"refusals"`
+	Knobs          []Knob     `json:"knobs"`
+	HashFuncs      []HashFunc `json:"narrow_hash_funcs"`
+	StrLits        []string   `json:"-"` // distinct short string literals of the source (workload dictionary)
+	TypeCheck      string     `json:"typecheck"`
+	TreeDigest     string     `json:"tree_digest"`
+	SiteDigest     string     `json:"site_digest"`
 }
 
 type edit struct {
@@ -180,6 +195,12 @@ func Instrument(plainDir, dstDir, simDir string) (*Report, error) {
 // InstrumentShrunk is Instrument with the knobs named in shrink (knob id ->
 // replacement text) rewritten: a configuration variant of the same tree.
 func InstrumentShrunk(plainDir, dstDir, simDir string, shrink map[int]string) (*Report, error) {
+	return InstrumentVariant(plainDir, dstDir, simDir, shrink, nil)
+}
+
+// InstrumentVariant additionally weakens the narrow hash functions named in
+// weaken (hash func id -> number of result bits kept).
+func InstrumentVariant(plainDir, dstDir, simDir string, shrink map[int]string, weaken map[int]int) (*Report, error) {
 	rep := &Report{}
 	var files []string
 	err := filepath.Walk(plainDir, func(p string, info os.FileInfo, err error) error {
@@ -252,6 +273,20 @@ func InstrumentShrunk(plainDir, dstDir, simDir string, shrink map[int]string) (*
 		}
 	}
 	collectKnobs(fset, all, rep, info)
+	collectHashFuncs(fset, all, rep)
+	for _, h := range rep.HashFuncs {
+		if bits, ok := weaken[h.ID]; ok {
+			for _, fc := range all {
+				if fc.rel != h.File {
+					continue
+				}
+				for _, r := range h.rets {
+					fc.insert(r[0], "(")
+					fc.insert(r[1], fmt.Sprintf(") & %d", (1<<uint(bits))-1))
+				}
+			}
+		}
+	}
 	lits := map[string]bool{}
 	for _, fc := range all {
 		ast.Inspect(fc.f, func(n ast.Node) bool {
@@ -1118,6 +1153,60 @@ func rewriteSelect(fset *token.FileSet, fc *fileCtx, rep *Report, x *ast.SelectS
 			fc.replace(cs, colon+1-cs, fmt.Sprintf("default: _, _ = %s, %s;", val, okv))
 		} else {
 			fc.replace(cs, colon+1-cs, fmt.Sprintf("case %d: _, _ = %s, %s;%s", cl.idx, val, okv, cl.prelude))
+		}
+	}
+}
+
+func collectHashFuncs(fset *token.FileSet, all []*fileCtx, rep *Report) {
+	for _, fc := range all {
+		if filepath.Dir(fc.rel) != "." {
+			continue
+		}
+		for _, d := range fc.f.Decls {
+			fd, ok := d.(*ast.FuncDecl)
+			if !ok || fd.Body == nil || fd.Type.Results == nil || len(fd.Type.Results.List) != 1 || len(fd.Type.Results.List[0].Names) > 0 {
+				continue
+			}
+			rt, ok := fd.Type.Results.List[0].Type.(*ast.Ident)
+			if !ok || (rt.Name != "uint32" && rt.Name != "uint16" && rt.Name != "uint8") {
+				continue
+			}
+			ln := strings.ToLower(fd.Name.Name)
+			if !(strings.Contains(ln, "hash") || strings.Contains(ln, "sum") || strings.Contains(ln, "crc") || strings.Contains(ln, "fnv") || strings.Contains(ln, "digest")) {
+				continue
+			}
+			keyed := false
+			for _, p := range fd.Type.Params.List {
+				switch t := p.Type.(type) {
+				case *ast.Ident:
+					keyed = keyed || t.Name == "string"
+				case *ast.ArrayType:
+					if id, ok := t.Elt.(*ast.Ident); ok && id.Name == "byte" && t.Len == nil {
+						keyed = true
+					}
+				}
+			}
+			if !keyed {
+				continue
+			}
+			h := HashFunc{ID: len(rep.HashFuncs), Name: fd.Name.Name, File: fc.rel, Line: fset.Position(fd.Pos()).Line, Ret: rt.Name}
+			ok2 := true
+			ast.Inspect(fd.Body, func(n ast.Node) bool {
+				switch x := n.(type) {
+				case *ast.FuncLit:
+					return false
+				case *ast.ReturnStmt:
+					if len(x.Results) != 1 {
+						ok2 = false
+						return false
+					}
+					h.rets = append(h.rets, [2]int{fset.Position(x.Results[0].Pos()).Offset, fset.Position(x.Results[0].End()).Offset})
+				}
+				return true
+			})
+			if ok2 && len(h.rets) > 0 {
+				rep.HashFuncs = append(rep.HashFuncs, h)
+			}
 		}
 	}
 }
